@@ -122,7 +122,8 @@ class BaseNetref(with_metaclass(NetrefMetaclass, object)):
 
     def __del__(self):
         try:
-            asyncreq(self, consts.HANDLE_DEL, self.____refcount__)
+            if self.____refcount__ > 0:
+                asyncreq(self, consts.HANDLE_DEL, self.____refcount__)
         except Exception:
             # raised in a destructor, most likely on program termination,
             # when the connection might have already been closed.
